@@ -46,7 +46,12 @@ impl DecimalParser {
 
     pub fn parse_decimal128(self, buffer: &mut [u8], s: &[u8]) -> Result<i128> {
         let (s, sign) = parse_sign(s);
-        let val: i128 = self.copy_digits(buffer, s)?.parse()?;
+        if !s.iter().any(|c| c.is_ascii_digit()) {
+            fail!("Invalid decimal: no digits found");
+        }
+        let digits = self.copy_digits(buffer, s)?;
+        // no digits left: all digits of the number were truncated
+        let val: i128 = if digits.is_empty() { 0 } else { digits.parse()? };
         let val = sign.apply_i128(val);
         Ok(val)
     }
